@@ -56,6 +56,22 @@ thread_local! {
   /// the first time the library clones an item on this thread (engine S is single-threaded)
   static CLONE_HOOK: std::cell::RefCell<Option<Box<dyn FnOnce()>>> = const { std::cell::RefCell::new(None) };
 }
+thread_local! {
+  /// user code inside an operator's function (map's f, filter's predicate, scan's accumulator, ...):
+  /// a one-shot action the driver arms for one emission; it runs the first time the library calls
+  /// one of the pipeline's user functions on this thread
+  static FN_HOOK: std::cell::RefCell<Option<Box<dyn FnOnce()>>> = const { std::cell::RefCell::new(None) };
+}
+pub fn arm_fn_hook(f: Option<Box<dyn FnOnce()>>) {
+  FN_HOOK.with(|h| *h.borrow_mut() = f);
+}
+/// called at the start of every user function the harness hands to an operator
+pub fn user_fn_point() {
+  let f = FN_HOOK.with(|h| h.borrow_mut().take());
+  if let Some(f) = f {
+    f();
+  }
+}
 pub fn arm_clone_hook(f: Option<Box<dyn FnOnce()>>) {
   CLONE_HOOK.with(|h| *h.borrow_mut() = f);
 }
